@@ -16,7 +16,8 @@
 EXTENDS Naturals, Sequences, FiniteSets, TLC, Json
 
 CONSTANTS
-  CfgSpace,    \* set of configurations [strict: [V -> BOOLEAN], dur: [V -> Nat], nu: {"absent","past","future"}, lists: [Certs -> Seq(Classes)]]
+  CfgSpace,    \* set of configurations [strict: [V -> BOOLEAN], dur: [V -> Nat], nu: {"absent","past","future"}, lists, alt: [Certs -> Seq(Classes)]]
+               \* (alt: what the responders of a certificate turn into when the environment switches them)
   MaxTime,     \* horizon of the discrete clock
   MaxQueries,  \* bound on the number of queries in a behaviour
   Expiry,      \* "absolute" (intended) | "sliding" (deviation D15: every read renews the lifetime)
@@ -31,7 +32,7 @@ NuDelta == 2                             \* a "future" nextUpdate lies this many
 
 (* ---- responder behaviour classes ---------------------------------------- *)
 Authentic == {"good", "revoked", "unknown", "delegGood", "delegRevoked"}
-NoAnswer  == {"stranger", "strangerEmbedded", "ownCert", "delegNoEku", "sibling", "otherSerial",
+NoAnswer  == {"stranger", "strangerEmbedded", "ownCert", "ownCertBare", "delegNoEku", "delegNoEkuBare", "sibling", "otherSerial",
               "errStatus", "http500", "garbage", "refused", "wrongContent", "httpsUntrusted"}
 NonHttp   == {"ldap"}
 Classes   == Authentic \cup NoAnswer \cup NonHttp
@@ -100,7 +101,13 @@ Flip(c) == /\ \E i \in 1..Len(lists[c]) : FlipOf(lists[c][i]) # lists[c][i]
            /\ out' = [kind |-> "flip"] /\ UNCHANGED <<cfg, now, cache, nq>>
            /\ Emit(<<"flip", c>>, out')
 
-Next == Tick \/ (\E v \in V, c \in Certs : Query(v, c)) \/ (\E c \in Certs : Flip(c))
+\* the responders of a certificate change their behaviour altogether (e.g. the same key now answers without embedding its certificate)
+Switch(c) == /\ lists[c] # cfg.alt[c]
+             /\ lists' = [lists EXCEPT ![c] = cfg.alt[c]]
+             /\ out' = [kind |-> "switch"] /\ UNCHANGED <<cfg, now, cache, nq>>
+             /\ Emit(<<"switch", c>>, out')
+
+Next == Tick \/ (\E v \in V, c \in Certs : Query(v, c)) \/ (\E c \in Certs : Flip(c) \/ Switch(c))
 Spec == Init /\ [][Next]_vars
 View == <<cfg, now, lists, cache, nq>>
 
